@@ -62,6 +62,8 @@ struct RCase {
     origin: u64,
     handler: bool,
     forward: Option<u64>,
+    /// consumer stops polling (but keeps the stream) after this many events
+    take: Option<u64>,
     script: Vec<Conn>,
 }
 
@@ -144,7 +146,7 @@ impl RCase {
     fn to_json(&self) -> Value {
         json!({"kind": "reconnect",
                "policy": {"initial": self.initial, "mult": self.mult, "max": self.max},
-               "origin": self.origin, "handler": self.handler, "forward": self.forward,
+               "origin": self.origin, "handler": self.handler, "forward": self.forward, "take": self.take,
                "script": self.script.iter().map(|c| c.to_json()).collect::<Vec<_>>()})
     }
     fn from_json(v: &Value) -> RCase {
@@ -155,6 +157,7 @@ impl RCase {
             origin: v["origin"].as_u64().unwrap_or(0),
             handler: v["handler"].as_bool().unwrap_or(false),
             forward: v["forward"].as_u64(),
+            take: v["take"].as_u64(),
             script: v["script"]
                 .as_array()
                 .unwrap()
@@ -226,6 +229,18 @@ impl Ev {
     }
 }
 type Log = Arc<Mutex<Vec<(u64, Ev)>>>;
+
+/// runaway watchdog: an implementation that spins (produces events for ever at one virtual
+/// instant) must become an observation (panic -> RPanic), not a hanging harness
+const MAX_EVENTS: usize = 100_000;
+fn push(log: &Log, t0: Instant, ev: Ev) {
+    let mut g = log.lock().unwrap();
+    if g.len() >= MAX_EVENTS {
+        drop(g);
+        panic!("runaway: more than {MAX_EVENTS} events observed");
+    }
+    g.push((ms(t0), ev));
+}
 
 fn ms(t0: Instant) -> u64 {
     (Instant::now() - t0).as_millis() as u64
@@ -331,7 +346,7 @@ impl<I: Debug + Clone + Send> Tx for CloseAfterTx<I> {
             let mut g = self.rx.lock().unwrap();
             if let Some(rx) = g.as_mut() {
                 while let Ok(ev) = rx.rx.try_recv() {
-                    self.log.lock().unwrap().push((ms(self.t0), (self.conv)(ev)));
+                    push(&self.log, self.t0, (self.conv)(ev));
                     *self.received.lock().unwrap() += 1;
                 }
             }
@@ -366,6 +381,7 @@ async fn consume<S, I>(
     s: S,
     conv: fn(I) -> Ev,
     forward: Option<Option<u64>>,
+    take: Option<u64>,
     log: Log,
     t0: Instant,
     deadline: Instant,
@@ -374,6 +390,24 @@ where
     S: Stream<Item = I> + Send,
     I: Debug + Clone + Send + 'static,
 {
+    if let Some(n) = take {
+        // a consumer that stops polling after n events but keeps the stream alive: nothing
+        // further may happen (pull based pipeline) until the horizon
+        tokio::pin!(s);
+        let mut got = 0;
+        while got < n {
+            match timeout_at(deadline, s.next()).await {
+                Err(_) => return None,
+                Ok(None) => return Some(ms(t0)),
+                Ok(Some(ev)) => {
+                    push(&log, t0, conv(ev));
+                    got += 1;
+                }
+            }
+        }
+        tokio::time::sleep_until(deadline).await;
+        return None;
+    }
     match forward {
         None => {
             tokio::pin!(s);
@@ -381,7 +415,7 @@ where
                 match timeout_at(deadline, s.next()).await {
                     Err(_) => break None,
                     Ok(None) => break Some(ms(t0)),
-                    Ok(Some(ev)) => log.lock().unwrap().push((ms(t0), conv(ev))),
+                    Ok(Some(ev)) => push(&log, t0, conv(ev)),
                 }
             }
         }
@@ -455,7 +489,7 @@ async fn run_reconnect_async(c: RCase, log: Log) -> Result<Option<u64>, u64> {
             let script = script.clone();
             let log = log.clone();
             async move {
-                log.lock().unwrap().push((ms(t0), Ev::Attempt));
+                push(&log, t0, Ev::Attempt);
                 let next = script.lock().unwrap().pop_front();
                 match next {
                     None => {
@@ -496,11 +530,11 @@ async fn run_reconnect_async(c: RCase, log: Log) -> Result<Option<u64>, u64> {
                 Some(id) => Ev::Handled(id),
                 None => Ev::HandledTerminal,
             };
-            hlog.lock().unwrap().push((ms(t0), ev));
+            push(&hlog, t0, ev);
         });
-        Ok(consume(stream, conv_plain, forward, log, t0, deadline).await)
+        Ok(consume(stream, conv_plain, forward, c.take, log, t0, deadline).await)
     } else {
-        Ok(consume(stream, conv_result, forward, log, t0, deadline).await)
+        Ok(consume(stream, conv_result, forward, c.take, log, t0, deadline).await)
     }
 }
 
@@ -522,6 +556,8 @@ fn rtags(c: &RCase, obs: &RObs) -> Vec<String> {
     };
     push(if c.handler { "with_error_handler" } else { "no_handler" });
     match c.forward {
+        _ if c.take == Some(0) => push("consumer_never_polls"),
+        _ if c.take.is_some() => push("consumer_stops_polling"),
         None => push("collect"),
         Some(u64::MAX) => push("forward_open_rx"),
         Some(_) => push("forward_rx_closes"),
@@ -571,6 +607,29 @@ fn rtags(c: &RCase, obs: &RObs) -> Vec<String> {
                 if items.is_empty() {
                     push("conn_empty");
                 }
+                let no_ok = !items
+                    .iter()
+                    .take_while(|x| x.it != Item::Term)
+                    .any(|x| matches!(x.it, Item::Ok(_)));
+                if no_ok && i > 0 {
+                    if let Conn::Ok { items: pi, .. } = &c.script[i - 1] {
+                        let prev_no_ok = !pi
+                            .iter()
+                            .take_while(|x| x.it != Item::Term)
+                            .any(|x| matches!(x.it, Item::Ok(_)));
+                        push(if prev_no_ok {
+                            "consecutive_conns_without_ok_item"
+                        } else {
+                            "conn_without_ok_item_after_normal"
+                        });
+                    }
+                }
+                if items.first().map(|x| x.it == Item::Term).unwrap_or(false) {
+                    push("first_item_terminal");
+                }
+                if i == 0 && items.is_empty() {
+                    push("first_conn_empty");
+                }
                 let term = items.iter().position(|x| x.it == Item::Term);
                 match term {
                     Some(p) if p + 1 < items.len() => push("terminal_then_more_items"),
@@ -605,6 +664,7 @@ fn emit_reconnect(em: &mut Emitter, stream: &'static str, c: &RCase) {
         RObs::Panic(tr) => format!("(RPanic {})", coq_trace(tr)),
     };
     let fwd = match c.forward {
+        _ if c.take.is_some() => format!("(FwdTake {})", n(c.take.unwrap() as u128)),
         None => "FwdNone".to_string(),
         Some(u64::MAX) => "FwdOpen".to_string(),
         Some(k) => format!("(FwdClose {})", n(k as u128)),
@@ -729,7 +789,12 @@ fn run_merge(c: &MCase) -> MObs {
                         o.end = Some(ms(t0));
                         break;
                     }
-                    Ok(Some((sd, v))) => o.out.push((ms(t0), sd, v)),
+                    Ok(Some((sd, v))) => {
+                        if o.out.len() >= MAX_EVENTS {
+                            panic!("runaway merge");
+                        }
+                        o.out.push((ms(t0), sd, v))
+                    }
                 }
             }
             // the merged stream is documented as fused: polling after the end yields nothing
@@ -827,9 +892,20 @@ fn gen_delay(r: &mut Rng) -> u64 {
 
 fn gen_items(r: &mut Rng, conn_idx: u64, max_len: u64, p_term: u64, p_err: u64) -> Vec<TItem> {
     let k = r.below(max_len + 1);
+    // repeated values: equal consecutive items inside a connection and equal items across the
+    // boundary of consecutive connections (every one must still be delivered, once each)
+    let same_across = r.chance(1, 6);
+    let mut prev = 0u64;
     (0..k)
         .map(|j| {
-            let id = conn_idx * 1000 + j;
+            let id = if j > 0 && r.chance(1, 6) {
+                prev
+            } else if same_across {
+                j / 2
+            } else {
+                conn_idx * 1000 + j
+            };
+            prev = id;
             let x = r.below(100);
             let it = if x < p_term {
                 Item::Term
@@ -931,18 +1007,20 @@ fn gen_rcase(r: &mut Rng, max_conns: u64, adversarial: bool) -> RCase {
         origin: r.below(5),
         handler: r.chance(1, 2),
         forward: None,
+        take: None,
         script: gen_script(r, max_conns, adversarial),
     };
-    c.forward = match r.below(8) {
-        0 | 1 => Some(r.below(count_outputs(&c) + 2)),
-        2 => Some(u64::MAX),
-        _ => None,
-    };
+    match r.below(10) {
+        0 | 1 => c.forward = Some(r.below(count_outputs(&c) + 2)),
+        2 => c.forward = Some(u64::MAX),
+        3 => c.take = Some(r.below(count_outputs(&c) + 2)),
+        _ => {}
+    }
     c
 }
 
 fn gen_mside(r: &mut Rng, base: u64, max_len: u64, adversarial: bool) -> MSide {
-    let k = r.below(max_len + 1);
+    let k = if r.chance(1, 7) { 0 } else { r.below(max_len + 1) };
     let items = (0..k)
         .map(|j| {
             let d = if adversarial {
@@ -1037,6 +1115,7 @@ fn table(em: &mut Emitter) {
                         3 => Some(sq.len() as u64 % 3 + follow as u64),
                         _ => None,
                     },
+                    take: None,
                     script,
                 };
                 emit_reconnect(em, "table", &c);
@@ -1046,7 +1125,7 @@ fn table(em: &mut Emitter) {
     // (2) backoff: k consecutive failures after a success, then a success, then j failures,
     //     for every policy class (growth, cap reached exactly / overshoot, multiplier 0/1/255,
     //     initial = max, initial > max, initial = 0)
-    let policies: [(u64, u8, u64); 12] = [
+    let policies: [(u64, u8, u64); 16] = [
         (125, 2, 60000),
         (100, 2, 800),
         (100, 2, 750),
@@ -1059,6 +1138,10 @@ fn table(em: &mut Emitter) {
         (1, 2, 1),
         (3, 10, 2999),
         (3, 10, 3000),
+        (10, 10, 500),
+        (1, 255, 254),
+        (0, 255, 10),
+        (5, 1, 4),
     ];
     for (initial, mult, max) in policies {
         for k in 0..=10u64 {
@@ -1097,6 +1180,7 @@ fn table(em: &mut Emitter) {
                         origin: 0,
                         handler: false,
                         forward: None,
+                        take: None,
                         script,
                     };
                     emit_reconnect(em, "table", &c);
@@ -1125,6 +1209,7 @@ fn table(em: &mut Emitter) {
                 origin: 0,
                 handler,
                 forward: None,
+                take: None,
                 script: script.clone(),
             };
             emit_reconnect(em, "table", &c);
@@ -1140,6 +1225,114 @@ fn table(em: &mut Emitter) {
                 origin: 4,
                 handler,
                 forward: Some(k),
+                take: None,
+                script: vec![
+                    Conn::Ok {
+                        lat: 1,
+                        items: mk_items(&vec![0, 2, 0], 10, 2),
+                        tail: 1,
+                    },
+                    Conn::Fail { lat: 0 },
+                    Conn::Ok {
+                        lat: 0,
+                        items: mk_items(&vec![2, 0, 1, 0], 20, 0),
+                        tail: 0,
+                    },
+                    Conn::Ok {
+                        lat: 0,
+                        items: mk_items(&vec![0], 30, 3),
+                        tail: 0,
+                    },
+                ],
+            };
+            emit_reconnect(em, "table", &c);
+        }
+    }
+    // (6) repetition: two and three CONSECUTIVE connections that hand nothing (or no Ok item) to
+    //     the consumer -- empty, first item terminal, only non-terminal errors, errors then a
+    //     terminal error -- as the very first connections or after a normal one, followed by a
+    //     normal one; all at one virtual instant (zero delays) or spread out; with and without
+    //     the error handler; collected, forwarded to a receiver that goes away, or read by a
+    //     consumer that stops polling. Every connection must get its own notice.
+    let silent = |class: u8, base: u64, d: u64| -> Conn {
+        let items = match class {
+            0 => vec![],
+            1 => mk_items(&vec![1, 0], base, d),
+            2 => mk_items(&vec![2], base, d),
+            3 => mk_items(&vec![2, 2], base, d),
+            _ => mk_items(&vec![2, 1, 0], base, d),
+        };
+        Conn::Ok {
+            lat: d,
+            items,
+            tail: d,
+        }
+    };
+    let mut combos: Vec<Vec<u8>> = vec![];
+    for a in 0..5u8 {
+        for b2 in 0..5u8 {
+            combos.push(vec![a, b2]);
+            for c in 0..5u8 {
+                if (a + 2 * b2 + c) % 2 == 0 {
+                    combos.push(vec![a, b2, c]);
+                }
+            }
+        }
+    }
+    for (ci, combo) in combos.iter().enumerate() {
+        for first in [true, false] {
+            for handler in [false, true] {
+                let d = if (ci + first as usize) % 2 == 0 { 0 } else { 3 };
+                let mut script = vec![];
+                if !first {
+                    script.push(Conn::Ok {
+                        lat: d,
+                        items: mk_items(&vec![0, 0], 10, d),
+                        tail: d,
+                    });
+                }
+                for (j, cl) in combo.iter().enumerate() {
+                    script.push(silent(*cl, 100 * (j as u64 + 1), d));
+                }
+                script.push(Conn::Ok {
+                    lat: 0,
+                    items: mk_items(&vec![0], 900, 0),
+                    tail: 0,
+                });
+                let mut c = RCase {
+                    initial: 50,
+                    mult: 2,
+                    max: 300,
+                    origin: 6,
+                    handler,
+                    forward: None,
+                    take: None,
+                    script,
+                };
+                emit_reconnect(em, "table", &c);
+                if combo.len() == 2 {
+                    let total = count_outputs(&c);
+                    c.forward = Some((ci as u64) % (total + 1));
+                    emit_reconnect(em, "table", &c);
+                    c.forward = None;
+                    c.take = Some((ci as u64 + 1) % (total + 1));
+                    emit_reconnect(em, "table", &c);
+                }
+            }
+        }
+    }
+    // (7) a consumer that stops polling: every stopping point (incl. never polling) over the
+    //     fixed script of (4)
+    for handler in [false, true] {
+        for k in 0..=9u64 {
+            let c = RCase {
+                initial: 10,
+                mult: 2,
+                max: 100,
+                origin: 4,
+                handler,
+                forward: None,
+                take: Some(k),
                 script: vec![
                     Conn::Ok {
                         lat: 1,
